@@ -48,12 +48,13 @@
 #include <aws/common/logging.h>
 #include <aws/common/string.h>
 #include <errno.h>
+#include <stdio_ext.h>
 #include <pthread.h>
 #include <stdarg.h>
 #include <stdlib.h>
 #include <string.h>
 
-enum { TAG_IDLE = 1, TAG_SEND = 2, TAG_WRITE = 3, TAG_DESTROY = 4, TAG_CLEAN = 5, TAG_WAITSTOP = 6, TAG_QUIESCE = 7 };
+enum { TAG_IDLE = 1, TAG_SEND = 2, TAG_WRITE = 3, TAG_DESTROY = 4, TAG_CLEAN = 5, TAG_WAITSTOP = 6, TAG_QUIESCE = 7, TAG_SINK = 8 };
 #define MAX_SENDERS 8
 #define MAX_LINES 64
 
@@ -201,8 +202,15 @@ static void s_append(uint8_t **buf, size_t *len, size_t *cap, const void *p, siz
     memcpy(*buf + *len, p, n);
     *len += n;
 }
+static int s_in_sink;
 static ssize_t s_sink_write(void *cookie, const char *buf, size_t n) {
     (void)cookie;
+    /* a schedule point INSIDE the write to the sink: two threads in here at once = writes to the sink not serialised */
+    if (++s_in_sink != 1) {
+        s_observe("MONITOR %d writes to the sink overlap", s_in_sink);
+    }
+    ds_yield(TAG_SINK);
+    --s_in_sink;
     ++s_sink_calls;
     if (s_sink_fail_period > 0 && s_sink_calls % (size_t)s_sink_fail_period == 0) {
         ++s_sink_failures;
@@ -215,10 +223,14 @@ static ssize_t s_sink_write(void *cookie, const char *buf, size_t n) {
 static void s_sink_open(int fail_period) {
     cookie_io_functions_t io = {.read = NULL, .write = s_sink_write, .seek = NULL, .close = NULL};
     s_sink_len = s_expect_len = s_sink_calls = s_sink_failures = 0;
+    s_in_sink = 0;
     s_sink_fail_period = fail_period;
     s_sink = fopencookie(NULL, "w", io);
     HC_CHECK(s_sink != NULL);
     setvbuf(s_sink, NULL, _IONBF, 0);
+    /* no stdio-internal lock on the sink: two threads inside fwrite at once must be SEEN overlapping in s_sink_write
+     * (schedule point inside), not block each other on a lock the scheduler knows nothing about */
+    __fsetlocking(s_sink, FSETLOCKING_BYCALLER);
 }
 static struct aws_log_writer s_file_writer; /* the library's file writer on top of the sink */
 
@@ -466,7 +478,7 @@ int main(void) {
             printf("bad-op\n");
             continue;
         }
-        cfg.max_steps = 200000;
+        cfg.max_steps = 20000; /* a normal run has a few hundred steps */
         printf("run %s\n", t[1]);
         fflush(stdout);
         memset(s_line, 0, sizeof(s_line));
@@ -483,7 +495,15 @@ int main(void) {
         ds_init(&cfg);
         int rc = ds_run(s_cfg.quiesce >= 3 ? s_main_noalloc : s_main, NULL);
         size_t oi = 0;
-        for (size_t i = 0; i < ds_event_count(); ++i) {
+        size_t first_ev = 0;
+        if (rc == 2 && ds_event_count() > 400) {
+            /* livelock: only the end of the story is printed */
+            first_ev = ds_event_count() - 400;
+            while (oi < s_nobs && s_obs[oi].stamp <= first_ev) {
+                ++oi;
+            }
+        }
+        for (size_t i = first_ev; i < ds_event_count(); ++i) {
             while (oi < s_nobs && s_obs[oi].stamp <= i) {
                 printf("O %s\n", s_obs[oi++].text);
             }
